@@ -2244,6 +2244,10 @@ def layout_variant(rng, patch, file_words=None):
         body = [respace(l) for l in body]
         done.append("respace")
     text = "\n".join(desc + [header] + meta + ["@@"] + body) + "\n"
+    if rng.random() < 0.25 and body and body[-1].strip():
+        # the last line of the file is not terminated
+        text = text[:-1]
+        done.append("no-final-newline")
     return text, done
 
 RENAME_TABLE = [
